@@ -1,5 +1,37 @@
+/-
+  C04 — spherical and Cartesian coordinates always denote the same points.
+
+  Model: `UxVerif/Model/Coords.lean` (generic over the scalar type; `R tol ct` below is its
+  instantiation at ℝ with `Real.sin/cos/arcsin/sqrt`, `Complex.arg` for `arctan2` and floor-mod).
+  The model is the REPAIRED algorithm (`repaired`, fixes/C04-*.patch); `asIs` is the snapshot's,
+  for which the property is refuted by proved witnesses (`asis_*`).
+
+  Main theorems (all over ℝ, every list unbounded):
+  * `provenance_agree` — for EVERY consistent source (any of the 3·4·4 provenance combinations of
+    node / edge-centre / face-centre coordinates, either longitude convention, any radius) and EVERY
+    history of accesses (the six lazy getters in any order with any repetition, with
+    `normalize_cartesian_coordinates()` interleaved anywhere — induction over the access list),
+    every array a getter returns is present, has longitudes in [-180,180] and latitudes in
+    [-90,90], and denotes the true positions (lon/lat up to the pole snap, xyz up to length; xyz
+    the source did not supply is exactly the unit vector).
+  * `reports_agree` — hence any reported (lon, lat) array and any reported (x, y, z) array of the
+    same kind, taken anywhere in any history, denote the same directions.
+  * `unsupplied_face_centre_is_centroid`, `unsupplied_edge_centre_is_midpoint`,
+    `edge_mid_equidistant`, `centroid_radius_invariant`, `derived_xyz_unit`.
+  * conversions: `xyz_unit`, `normalize_unit/dir/idem`, `xyz_of_lonlat_of_xyz`,
+    `lonlat_of_xyz_agree` (range + same direction incl. pole snap), periodicity
+    (`xyz_mod_two_pi`, `dirDeg_wrap180`, `deg2rad_rad2deg`), `deg_range` (any floor field, ℚ, ℝ),
+    `sameDir_dot` (the snap costs at most arccos(1 − tol)).
+  * the driver's Boolean checkers decide the Props: `sameDirB_iff`, `rangeB_iff`, `closeB_iff`.
+  * counterexamples for the snapshot: `asis_node_lon_out_of_range`, `asis_centre_degrees_as_radians`,
+    `asis_centre_nonunit`, `asis_provenance_fails`.
+
+  Not proved: IEEE rounding / libm (the Float run of the same definitions is compared with the
+  implementation at 1e-12 by harness/c04.py); NumPy/xarray storage semantics.
+-/
 import UxVerif.Lemmas.Coords
 import Mathlib.Data.List.Forall2
+import Mathlib.Algebra.Order.Floor.Ring
 
 namespace UxVerif.C04
 open UxVerif.Coords UxVerif.CoordsR List
@@ -110,16 +142,54 @@ theorem centreLL_of_posmul (h0 : 0 < tol) (h1 : tol < 1) {v t : V3 ℝ} (h : Pos
     LLok tol ct (centreLLOfStoredXyz (R tol ct) repaired v) t := by
   obtain ⟨c, hc, rfl⟩ := h
   have : centreLLOfStoredXyz (R tol ct) repaired (V3.smul c t) = lonLatDegOfXyz (R tol ct) false t := by
-    simp [centreLLOfStoredXyz, repaired, normalize_posmul c hc t ht]
+    simp [centreLLOfStoredXyz, repaired, lonLatDeg_norm _ (normSq_posmul_ne c hc t ht), normalize_posmul c hc t ht]
   rw [this]
   exact lonlat_of_unit h0 h1 t ht
 
+/-- what `_populate_node_latlon` stores for one node: latitude in range, longitude ≥ -180 but NOT
+    yet wrapped (it lies in [0, 360)), denoting the true point -/
+def LLpre (tol ct : ℝ) (p : Deg ℝ × Deg ℝ) (t : V3 ℝ) : Prop :=
+  -180 ≤ p.1.val ∧ -90 ≤ p.2.val ∧ p.2.val ≤ 90 ∧ SameDir tol (dirDeg (R tol ct) p) t
+
 theorem nodeLL_of_posmul (h0 : 0 < tol) (h1 : tol < 1) {c : ℝ} (hc : 0 < c) {t : V3 ℝ} (ht : normSq t = 1) :
-    LLok tol ct (nodeLLOfXyz (R tol ct) repaired (V3.smul c t)) t := by
-  have : nodeLLOfXyz (R tol ct) repaired (V3.smul c t) = lonLatDegOfXyz (R tol ct) false t := by
-    simp [nodeLLOfXyz, repaired, lonLatDeg_norm _ (normSq_posmul_ne c hc t ht), normalize_posmul c hc t ht]
-  rw [this]
-  exact lonlat_of_unit h0 h1 t ht
+    LLpre tol ct (nodeLLOfXyz (R tol ct) (V3.smul c t)) t := by
+  have h := nodeLL_of_unit (ct := ct) h0 h1 t ht
+  simp only [nodeLLOfXyz, lonLatRad_norm _ (normSq_posmul_ne c hc t ht), normalize_posmul c hc t ht]
+  exact ⟨h.1.1, h.1.2.1, h.1.2.2, h.2⟩
+
+theorem forall₂_and_left {α β : Type} {P : α → β → Prop} {Q : α → Prop} {l : List α} {t : List β}
+    (h : Forall₂ P l t) (hq : ∀ a ∈ l, Q a) : Forall₂ (fun a b => P a b ∧ Q a) l t := by
+  induction h with
+  | nil => exact Forall₂.nil
+  | cons hab _ ih =>
+    exact Forall₂.cons ⟨hab, hq _ (by simp)⟩ (ih (fun b hb => hq b (by simp [hb])))
+
+/-- `_set_desired_longitude_range` on an array whose longitudes are ≥ -180 (possibly above 180):
+    afterwards every longitude is in [-180, 180] and every pair still denotes the same point -/
+theorem wrapArr_gen {P : V3 ℝ → V3 ℝ → Prop} {l : LL ℝ} {t : List (V3 ℝ)}
+    (h : Forall₂ (fun p t => -180 ≤ p.1.val ∧ -90 ≤ p.2.val ∧ p.2.val ≤ 90 ∧ P (dirDeg (R tol ct) p) t) l t) :
+    Forall₂ (fun p t => InRange p ∧ P (dirDeg (R tol ct) p) t) (wrapArr (R tol ct) l) t := by
+  unfold wrapArr
+  split
+  · rw [forall₂_map_left_iff]
+    refine h.imp ?_
+    rintro ⟨lon, lat⟩ t ⟨_, h2, h3, h4⟩
+    refine ⟨⟨(wrap180_range _).1, (wrap180_range _).2.le, h2, h3⟩, ?_⟩
+    rw [CoordsR.dirDeg_wrap180]; exact h4
+  · rename_i hany
+    have hall : ∀ p ∈ l, p.1.val ≤ 180 := by
+      intro p hp
+      by_contra hlt
+      apply hany
+      rw [List.any_eq_true]
+      exact ⟨p, hp, by simpa [R] using hlt⟩
+    refine (forall₂_and_left h hall).imp ?_
+    rintro p t ⟨⟨h1, h2, h3, h4⟩, h5⟩
+    exact ⟨⟨h1, h5, h2, h3⟩, h4⟩
+
+theorem wrapArr_pre {l : LL ℝ} {t : List (V3 ℝ)} (h : Forall₂ (LLpre tol ct) l t) :
+    Forall₂ (LLok tol ct) (wrapArr (R tol ct) l) t :=
+  wrapArr_gen (P := SameDir tol) h
 
 /-- the shared body of `_populate_face_centroids` / `_populate_edge_centroids` re-establishes the
     invariant with both representations stored -/
@@ -289,19 +359,30 @@ theorem populateEdge_spec (h0 : 0 < tol) (h1 : tol < 1) (hu : TruthUnit T) (hI :
     (fun hE => edges_constructed hr hE)
   exact ⟨⟨hI1.node, hc, hI1.face⟩, ⟨_, rfl⟩, ⟨_, rfl⟩⟩
 
-theorem populateNodeLL_spec (h0 : 0 < tol) (h1 : tol < 1) (hu : TruthUnit T) (hI : Inv tol ct sup c T s)
+/-- REPAIRED `node_lon` / `node_lat` getter on a grid without node lon/lat: populate, THEN
+    `_set_desired_longitude_range` -/
+theorem getNodeLL_spec (h0 : 0 < tol) (h1 : tol < 1) (hu : TruthUnit T) (hI : Inv tol ct sup c T s)
     (hn : s.nodeLL = none) :
-    Inv tol ct sup c T (populateNodeLL (R tol ct) repaired s) ∧
-    ∃ l, (populateNodeLL (R tol ct) repaired s).nodeLL = some l := by
+    Inv tol ct sup c T (wrapRange (R tol ct) (populateNodeLL (R tol ct) s)) ∧
+    ∃ l, (wrapRange (R tol ct) (populateNodeLL (R tol ct) s)).nodeLL = some l := by
+  have he : s.edgeLL.map (wrapArr (R tol ct)) = s.edgeLL := by
+    cases h : s.edgeLL with
+    | none => rfl
+    | some l => simp [wrapArr_id (hI.edge.ll_ok l h)]
+  have hf : s.faceLL.map (wrapArr (R tol ct)) = s.faceLL := by
+    cases h : s.faceLL with
+    | none => rfl
+    | some l => simp [wrapArr_id (hI.face.ll_ok l h)]
   cases hx : s.nodeXYZ with
   | none =>
     obtain ⟨l, hl, _⟩ := hI.node.ll_exact hx
     rw [hn] at hl; cases hl
   | some xs =>
     obtain ⟨r, hr, hxs⟩ := hI.node.xyz_ok xs hx
-    simp only [populateNodeLL, hx]
+    simp only [populateNodeLL, hx, wrapRange, he, hf, Option.map_some]
     refine ⟨⟨⟨?_, ?_, ?_, ?_⟩, hI.edge, hI.face⟩, ⟨_, rfl⟩⟩
     · intro l hl; cases hl
+      apply wrapArr_pre
       rw [hxs, List.map_map]
       exact forall₂_map_self (fun t ht => nodeLL_of_posmul h0 h1 hr (hu .node t ht))
     · intro ys hy; exact hI.node.xyz_ok ys (by rw [hx]; exact hy)
@@ -406,8 +487,8 @@ theorem step_spec (h0 : 0 < tol) (h1 : tol < 1) (hu : TruthUnit T) (hI : Inv tol
       simp only [step]
       cases hn : s.nodeLL with
       | none =>
-        simp only [Option.isNone_none, if_true, wrapRange_id hI]
-        obtain ⟨hI', l, hl⟩ := populateNodeLL_spec h0 h1 hu hI hn
+        simp only [Option.isNone_none, if_true, repaired]
+        obtain ⟨hI', l, hl⟩ := getNodeLL_spec h0 h1 hu hI hn
         exact ⟨hI', hI'.reportNodeLL hl⟩
       | some l =>
         simp only [Option.isNone_some, Bool.false_eq_true, if_false]
@@ -506,34 +587,9 @@ structure SourceOK (tol ct : ℝ) (c : Conn) (T : Truth) (src : St ℝ) : Prop w
   faceXYZ : ∀ xs, src.faceXYZ = some xs → Forall₂ PosMul xs T.face
   faceFresh : src.faceLL = none → src.faceXYZ = none → FreshFace tol ct c T
 
-theorem forall₂_and_left {α β : Type} {P : α → β → Prop} {Q : α → Prop} {l : List α} {t : List β}
-    (h : Forall₂ P l t) (hq : ∀ a ∈ l, Q a) : Forall₂ (fun a b => P a b ∧ Q a) l t := by
-  induction h with
-  | nil => exact Forall₂.nil
-  | cons hab _ ih =>
-    exact Forall₂.cons ⟨hab, hq _ (by simp)⟩ (ih (fun b hb => hq b (by simp [hb])))
-
-/-- `_set_desired_longitude_range` on a source array: afterwards every longitude is in [-180, 180]
-    and every pair still denotes the same point -/
 theorem wrapArr_src {l : LL ℝ} {t : List (V3 ℝ)} (h : Forall₂ (SrcLL tol ct) l t) :
-    Forall₂ (LLexact tol ct) (wrapArr (R tol ct) l) t := by
-  unfold wrapArr
-  split
-  · rw [forall₂_map_left_iff]
-    refine h.imp ?_
-    rintro ⟨lon, lat⟩ t ⟨_, h2, h3, h4⟩
-    refine ⟨⟨(wrap180_range _).1, (wrap180_range _).2.le, h2, h3⟩, ?_⟩
-    rw [dirDeg_wrap180]; exact h4
-  · rename_i hany
-    have hall : ∀ p ∈ l, p.1.val ≤ 180 := by
-      intro p hp
-      by_contra hlt
-      apply hany
-      rw [List.any_eq_true]
-      exact ⟨p, hp, by simpa [R] using hlt⟩
-    refine (forall₂_and_left h hall).imp ?_
-    rintro p t ⟨⟨h1, h2, h3, h4⟩, h5⟩
-    exact ⟨⟨h1, h5, h2, h3⟩, h4⟩
+    Forall₂ (LLexact tol ct) (wrapArr (R tol ct) l) t :=
+  wrapArr_gen (P := fun a b => a = b) h
 
 theorem init_inv {src : St ℝ} (hS : SourceOK tol ct c T src) :
     Inv tol ct (supOf src) c T (init (R tol ct) src) := by
@@ -622,5 +678,391 @@ theorem reports_agree (h0 : 0 < tol) (h1 : tol < 1) {src : St ℝ}
   rintro p v ⟨t, ⟨hr, hd⟩, ⟨kk, hk, rfl⟩, ht⟩
   rw [normalize_posmul kk hk t ht]
   exact ⟨hr, hd⟩
+
+/-! ### ranges (generic in the field; instantiated at ℚ and ℝ) -/
+
+theorem deg_range {K : Type} [Field K] [LinearOrder K] [IsStrictOrderedRing K] [FloorRing K]
+    (T : Ops K) (hT : ∀ a b, T.fmod a b = a - b * (⌊a / b⌋ : ℤ)) (d : K) :
+    -180 ≤ wrap180 T d ∧ wrap180 T d < 180 := by
+  simp only [wrap180, hT]
+  have h1 := Int.floor_le ((d + 180) / 360)
+  have h2 := Int.lt_floor_add_one ((d + 180) / 360)
+  rw [le_div_iff₀ (by norm_num)] at h1
+  rw [div_lt_iff₀ (by norm_num)] at h2
+  constructor <;> linarith
+
+/-- exact rational instantiation (only `fmod`, `lt`, `abs` are meaningful) -/
+def Q : Ops ℚ where
+  sin := id
+  cos := id
+  atan2 := fun _ _ => 0
+  asin := id
+  sqrt := id
+  abs := fun x => |x|
+  pi := 0
+  fmod := fun a b => a - b * (⌊a / b⌋ : ℤ)
+  lt := fun a b => decide (a < b)
+  ofNat := fun n => (n : ℚ)
+  tol := 0
+  closeTol := 0
+
+theorem deg_range_rat (d : ℚ) : -180 ≤ wrap180 Q d ∧ wrap180 Q d < 180 :=
+  deg_range Q (fun _ _ => rfl) d
+
+example : wrap180 Q 190 = -170 := by
+  simp only [wrap180, Q]
+  have : ⌊((190 : ℚ) + 180) / 360⌋ = 1 := by rw [Int.floor_eq_iff]; norm_num
+  rw [this]; norm_num
+
+
+/-! ### arc midpoint, centroid -/
+
+/-- an edge centre is the arc midpoint: equidistant from both ends and a positive multiple of a + b -/
+theorem edge_mid_equidistant (a b : V3 ℝ) (ha : normSq a = 1) (hb : normSq b = 1)
+    (hab : normSq (meanV (R tol ct) [a, b]) ≠ 0) :
+    dot (normalizeV (R tol ct) (meanV (R tol ct) [a, b])) a
+      = dot (normalizeV (R tol ct) (meanV (R tol ct) [a, b])) b ∧
+    ∃ k : ℝ, 0 < k ∧ normalizeV (R tol ct) (meanV (R tol ct) [a, b]) = V3.smul k (V3.add a b) := by
+  obtain ⟨c, hc, hm⟩ := normalize_dir (tol := tol) (ct := ct) _ hab
+  rw [hm]
+  have ha' : a.x * a.x + a.y * a.y + a.z * a.z = 1 := ha
+  have hb' : b.x * b.x + b.y * b.y + b.z * b.z = 1 := hb
+  constructor
+  · simp [dot, V3.smul, meanV, sumV, V3.add, V3.divS, V3.zero, R]
+    linear_combination (c / 2) * ha' - (c / 2) * hb'
+  · refine ⟨c / 2, by positivity, ?_⟩
+    apply V3.ext' <;> simp [V3.smul, meanV, sumV, V3.add, V3.divS, V3.zero, R] <;> ring
+
+/-- the model's face centre is, by definition, the normalised mean of the face's corners -/
+theorem centroid_def (nodes : List (V3 ℝ)) (f : List Nat) :
+    faceCentroid (R tol ct) nodes f = normalizeV (R tol ct) (meanV (R tol ct) (f.map (nodeAt nodes))) := rfl
+
+theorem centroid_unit (nodes : List (V3 ℝ)) (f : List Nat)
+    (h : normSq (meanV (R tol ct) (f.map (nodeAt nodes))) ≠ 0) :
+    normSq (faceCentroid (R tol ct) nodes f) = 1 := normalize_unit _ h
+
+/-- corners given with any common radius give the centroid of the corner UNIT vectors -/
+theorem centroid_radius_invariant (r : ℝ) (hr : 0 < r) (tn : List (V3 ℝ)) (f : List Nat)
+    (h : normSq (meanV (R tol ct) (f.map (nodeAt tn))) ≠ 0) :
+    faceCentroid (R tol ct) (tn.map (V3.smul r)) f = faceCentroid (R tol ct) tn f :=
+  faceCentroid_scaled r hr tn f h
+
+/-! ### the pole snap costs at most `arccos (1 − snap)` -/
+
+theorem sameDir_dot {snap : ℝ} (hs : 0 < snap) {p q : V3 ℝ} (h : SameDir snap p q) (hq : normSq q = 1) :
+    1 - snap < dot p q := by
+  rcases h with rfl | ⟨h, rfl⟩ | ⟨h, rfl⟩
+  · have : dot p p = 1 := hq
+    rw [this]; linarith
+  · simpa [dot] using h
+  · simpa [dot] using h
+
+/-! ### the driver's Boolean checkers decide the specification (at tolerance 0 over ℝ) -/
+
+theorem leB_iff (a b : ℝ) : leB (R tol ct) a b = true ↔ a ≤ b := by
+  simp [leB, R]
+
+theorem closeB_iff (p q : V3 ℝ) : closeB (R tol ct) 0 p q = true ↔ p = q := by
+  simp only [closeB, Bool.and_eq_true, leB_iff]
+  simp only [R, abs_nonpos_iff, sub_eq_zero]
+  constructor
+  · rintro ⟨⟨hx, hy⟩, hz⟩; exact V3.ext' hx hy hz
+  · rintro rfl; exact ⟨⟨rfl, rfl⟩, rfl⟩
+
+theorem sameDirB_iff (snap : ℝ) (p q : V3 ℝ) :
+    sameDirB (R tol ct) 0 snap p q = true ↔ SameDir snap p q := by
+  simp only [sameDirB, Bool.or_eq_true, Bool.and_eq_true, closeB_iff, SameDir]
+  simp [R, or_assoc]
+
+theorem rangeB_iff (p : Deg ℝ × Deg ℝ) : rangeB (R tol ct) p = true ↔ InRange p := by
+  simp only [rangeB, Bool.and_eq_true, leB_iff, InRange, and_assoc]
+
+
+/-! ### the snapshot's algorithm (`asIs`) violates the property: proved counterexamples -/
+
+theorem arg_neg_imag : Complex.arg (⟨0, -1⟩ : ℂ) = -(Real.pi / 2) := by
+  have : (⟨0, -1⟩ : ℂ) = -Complex.I := by apply Complex.ext <;> simp
+  rw [this, Complex.arg_neg_I]
+
+/-- defect (a): for a node supplied in Cartesian form at (0, -1, 0) (longitude -90°)
+    `_populate_node_latlon` stores longitude 270°, outside [-180, 180]; the unrepaired getter
+    returns it as it is (`asis_provenance_fails`) because it wraps BEFORE populating -/
+theorem asis_node_lon_out_of_range (h1 : tol < 1) :
+    (nodeLLOfXyz (R tol ct) ⟨0, -1, 0⟩).1.val = 270 := by
+  have hu : normSq (⟨0, -1, 0⟩ : V3 ℝ) = 1 := by norm_num [normSq, dot]
+  have hn : normSq (⟨0, -1, 0⟩ : V3 ℝ) ≠ 0 := by rw [hu]; norm_num
+  have hm : ¬ 1 - tol < |(⟨0, -1, 0⟩ : V3 ℝ).z| := by simp; linarith
+  have hpi := Real.pi_pos
+  have hfl : ⌊-(Real.pi / 2) / (2 * Real.pi)⌋ = -1 := by
+    have : -(Real.pi / 2) / (2 * Real.pi) = -(1 / 4) := by field_simp; ring
+    rw [this, Int.floor_eq_iff]; norm_num
+  simp only [nodeLLOfXyz, lonLatRad_norm _ hn, normalize_of_unit _ hu,
+    lonLatRad_nomask _ hm, rad2deg, fmod_def, arg_neg_imag]
+  simp only [R, hfl]
+  field_simp
+  norm_num
+
+theorem sin_four_neg : Real.sin 4 < 0 := by
+  have h3 := Real.pi_gt_three
+  have h4 := Real.pi_lt_d2
+  have : Real.sin 4 = Real.sin (4 - 2 * Real.pi) := by rw [Real.sin_sub_two_pi]
+  rw [this]
+  apply Real.sin_neg_of_neg_of_neg_pi_lt <;> linarith
+
+/-- defect (b): a stored centre at (lon, lat) = (4°, 0°): the unrepaired branch hands the degrees
+    to `_lonlat_rad_to_xyz` and obtains a vector in the southern half-plane y < 0, while the point
+    the stored lon/lat denotes has y > 0 — the two reports do not denote the same direction -/
+theorem asis_centre_degrees_as_radians :
+    ¬ SameDir tol (dirDeg (R tol ct) (⟨4⟩, ⟨0⟩)) (centreXyzOfLL (R tol ct) asIs (⟨4⟩, ⟨0⟩)) := by
+  have hy1 : (centreXyzOfLL (R tol ct) asIs (⟨4⟩, ⟨0⟩)).y < 0 := by
+    simp [centreXyzOfLL, asIs, xyzOfLonLatRad, Deg.asRad, R]
+    exact sin_four_neg
+  have hy2 : 0 < (dirDeg (R tol ct) (⟨4⟩, ⟨0⟩)).y := by
+    simp [dirDeg, deg2rad, xyzOfLonLatRad, R]
+    have hpi := Real.pi_pos
+    apply Real.sin_pos_of_pos_of_lt_pi <;> [positivity; linarith]
+  have hz : (dirDeg (R tol ct) (⟨4⟩, ⟨0⟩)).z = 0 := by
+    simp [dirDeg, deg2rad, xyzOfLonLatRad, R]
+  rintro (h | ⟨_, h⟩ | ⟨_, h⟩)
+  · rw [h] at hy2; linarith
+  · rw [h] at hz; norm_num at hz
+  · rw [h] at hz; norm_num at hz
+
+/-- defect (c): a stored centre vector (1, 0, 1) (latitude 45°, radius √2): the unrepaired branch
+    takes `arcsin` of the un-normalised z = 1, reports the north pole, which is not the direction
+    of the stored vector -/
+theorem asis_centre_nonunit (h0 : 0 < tol) (h1 : tol ≤ 1 / 4) :
+    ¬ SameDir tol (dirDeg (R tol ct) (centreLLOfStoredXyz (R tol ct) asIs ⟨1, 0, 1⟩))
+        (normalizeV (R tol ct) ⟨1, 0, 1⟩) := by
+  have hm : 1 - tol < |(⟨1, 0, 1⟩ : V3 ℝ).z| := by simp; linarith
+  have hs : signK (R tol ct) (1 : ℝ) = 1 := by simp [signK, R]
+  have hpi := Real.pi_ne_zero
+  have hd : dirDeg (R tol ct) (centreLLOfStoredXyz (R tol ct) asIs ⟨1, 0, 1⟩) = ⟨0, 0, 1⟩ := by
+    simp only [centreLLOfStoredXyz, asIs, lonLatDegOfXyz, lonLatRad_mask _ hm, rad2deg, hs]
+    have hw : wrap180 (R tol ct) (0 * (180 / (R tol ct).pi)) = 0 := by rw [zero_mul, wrap180_zero]
+    rw [hw]
+    have hlat : (1 * Real.pi / 2 * (180 / (R tol ct).pi)) = 90 := by
+      simp only [R]; field_simp; norm_num
+    rw [hlat]
+    simp only [dirDeg, deg2rad, xyzOfLonLatRad, R]
+    have : (90 : ℝ) * (Real.pi / 180) = Real.pi / 2 := by ring
+    rw [this]
+    apply V3.ext' <;> simp
+  rw [hd]
+  have hn : normSq (⟨1, 0, 1⟩ : V3 ℝ) ≠ 0 := by norm_num [normSq, dot]
+  have hq := normalize_unit (tol := tol) (ct := ct) _ hn
+  have hxz : (normalizeV (R tol ct) ⟨1, 0, 1⟩).x = (normalizeV (R tol ct) ⟨1, 0, 1⟩).z := by
+    simp [normalizeV, V3.divS]
+  have hy : (normalizeV (R tol ct) ⟨1, 0, 1⟩).y = 0 := by
+    simp [normalizeV, V3.divS]
+  generalize normalizeV (R tol ct) ⟨1, 0, 1⟩ = q at *
+  have hq' : q.x * q.x + q.y * q.y + q.z * q.z = 1 := hq
+  rw [hxz, hy] at hq'
+  have hz2 : q.z * q.z = 1 / 2 := by linarith
+  rintro (h | ⟨h, _⟩ | ⟨_, h⟩)
+  · have : q.z = 1 := by rw [← h]
+    rw [this] at hz2; norm_num at hz2
+  · nlinarith
+  · have := congrArg V3.z h; norm_num at this
+
+
+/-! ### a concrete consistent source (non-vacuity of `SourceOK`) and the as-is run on it -/
+
+/-- one triangle, nodes supplied in Cartesian form only, radius 2; no centres supplied -/
+def src0 : St ℝ :=
+  { nodeLL := none, nodeXYZ := some [⟨0, -2, 0⟩, ⟨2, 0, 0⟩, ⟨0, 0, 2⟩], edgeLL := none, edgeXYZ := none,
+    faceLL := none, faceXYZ := none, normalized := false }
+
+def conn0 : Conn := { faces := [[0, 1, 2]], edges := [(0, 1), (1, 2), (0, 2)] }
+
+def node0 : List (V3 ℝ) := [⟨0, -1, 0⟩, ⟨1, 0, 0⟩, ⟨0, 0, 1⟩]
+
+noncomputable def truth0 (tol ct : ℝ) : Truth :=
+  { node := node0
+    edge := conn0.edges.map (edgeCentroid (R tol ct) node0)
+    face := conn0.faces.map (faceCentroid (R tol ct) node0) }
+
+theorem freshFace0 : FreshFace tol ct conn0 (truth0 tol ct) := by
+  refine ⟨rfl, ?_⟩
+  intro f hf
+  simp only [conn0, List.mem_singleton] at hf
+  subst hf
+  norm_num [truth0, node0, meanV, sumV, nodeAt, V3.add, V3.zero, V3.divS, normSq, dot, R]
+
+theorem freshEdge0 : FreshEdge tol ct conn0 (truth0 tol ct) := by
+  refine ⟨rfl, ?_⟩
+  intro e he
+  simp only [conn0, List.mem_cons, List.not_mem_nil, or_false] at he
+  rcases he with rfl | rfl | rfl <;>
+    norm_num [truth0, node0, meanV, sumV, nodeAt, V3.add, V3.zero, V3.divS, normSq, dot, R]
+
+theorem sourceOK0 : SourceOK tol ct conn0 (truth0 tol ct) src0 where
+  unit := by
+    intro k t ht
+    cases k with
+    | node =>
+      simp only [Truth.of, truth0, node0, List.mem_cons, List.not_mem_nil, or_false] at ht
+      rcases ht with rfl | rfl | rfl <;> norm_num [normSq, dot]
+    | edge =>
+      simp only [Truth.of, truth0, List.mem_map] at ht
+      obtain ⟨e, he, rfl⟩ := ht
+      exact normalize_unit _ (freshEdge0.2 e he)
+    | face =>
+      simp only [Truth.of, truth0, List.mem_map] at ht
+      obtain ⟨f, hf, rfl⟩ := ht
+      exact normalize_unit _ (freshFace0.2 f hf)
+  node_some := by intro _ h; simp [src0] at h
+  nodeLL := by intro l h; simp [src0] at h
+  nodeXYZ := by
+    intro xs h
+    refine ⟨2, by norm_num, ?_⟩
+    simp only [src0, Option.some.injEq] at h
+    subst h
+    simp [truth0, node0, V3.smul]
+  edgeLL := by intro l h; simp [src0] at h
+  edgeXYZ := by intro l h; simp [src0] at h
+  edgeFresh := fun _ _ => freshEdge0
+  faceLL := by intro l h; simp [src0] at h
+  faceXYZ := by intro l h; simp [src0] at h
+  faceFresh := fun _ _ => freshFace0
+
+/-- non-vacuity of `provenance_agree`: its hypotheses are met by `src0`, for every history -/
+example (h0 : 0 < tol) (h1 : tol < 1) (ops : List Op) :
+    ∀ r ∈ (run (R tol ct) repaired conn0 (init (R tol ct) src0) ops).2,
+      ReportOK tol ct (supOf src0) (truth0 tol ct) r :=
+  provenance_agree h0 h1 sourceOK0 ops
+
+/-- the same consistent source under the UNREPAIRED algorithm: reading `node_lon` first reports
+    270° for the node at longitude -90°, so the provenance theorem is false for `asIs` -/
+theorem asis_provenance_fails (h1 : tol < 1) :
+    ¬ ∀ r ∈ (run (R tol ct) asIs conn0 (init (R tol ct) src0) [Op.getLL Kind.node]).2,
+        ReportOK tol ct (supOf src0) (truth0 tol ct) r := by
+  intro h
+  have hr := h (Report.ll Kind.node
+      (some ([⟨0, -2, 0⟩, ⟨2, 0, 0⟩, ⟨0, 0, 2⟩].map (nodeLLOfXyz (R tol ct))))) (by
+    simp [run, step, init, wrapRange, populateNodeLL, src0, asIs])
+  obtain ⟨l, hl, hf⟩ := hr
+  simp only [Option.some.injEq] at hl
+  subst hl
+  simp only [List.map_cons, Truth.of, truth0, node0] at hf
+  cases hf with
+  | cons h1' _ =>
+    have hle := h1'.1.2.1
+    have hn : normSq (⟨0, -1, 0⟩ : V3 ℝ) = 1 := by norm_num [normSq, dot]
+    have e : (⟨0, -2, 0⟩ : V3 ℝ) = V3.smul 2 ⟨0, -1, 0⟩ := by simp [V3.smul]
+    have h270 : (nodeLLOfXyz (R tol ct) ⟨0, -2, 0⟩).1.val = 270 := by
+      have := asis_node_lon_out_of_range (tol := tol) (ct := ct) h1
+      simp only [nodeLLOfXyz] at this ⊢
+      rw [e, lonLatRad_norm _ (normSq_posmul_ne 2 (by norm_num) _ hn), normalize_posmul 2 (by norm_num) _ hn]
+      rw [lonLatRad_norm _ (by rw [hn]; norm_num), normalize_of_unit _ hn] at this
+      exact this
+    rw [h270] at hle
+    norm_num at hle
+
+
+/-! ### corollaries of the provenance theorem -/
+
+variable {c : Conn} {T : Truth}
+
+/-- Cartesian coordinates the source did not supply have unit length, in every history -/
+theorem derived_xyz_unit (h0 : 0 < tol) (h1 : tol < 1) {src : St ℝ}
+    (hS : SourceOK tol ct c T src) (ops : List Op) (k : Kind) (xs : List (V3 ℝ))
+    (hx : Report.xyz k (some xs) ∈ (run (R tol ct) repaired c (init (R tol ct) src) ops).2)
+    (hk : supOf src k = false) : ∀ v ∈ xs, normSq v = 1 := by
+  obtain ⟨xs', e, _, hd⟩ := provenance_agree h0 h1 hS ops _ hx
+  cases e
+  rw [hd hk]
+  exact hS.unit k
+
+/-- face centres the source does not supply are the normalised means of the corner unit vectors -/
+theorem unsupplied_face_centre_is_centroid (h0 : 0 < tol) (h1 : tol < 1) {src : St ℝ}
+    (hS : SourceOK tol ct c T src) (ops : List Op) (xs : List (V3 ℝ))
+    (hx : Report.xyz Kind.face (some xs) ∈ (run (R tol ct) repaired c (init (R tol ct) src) ops).2)
+    (hl : src.faceLL = none) (hc : src.faceXYZ = none) :
+    xs = c.faces.map (faceCentroid (R tol ct) T.node) := by
+  obtain ⟨xs', e, _, hd⟩ := provenance_agree h0 h1 hS ops _ hx
+  cases e
+  rw [hd (by simp [supOf, hc])]
+  exact (hS.faceFresh hl hc).1
+
+/-- edge centres the source does not supply are the arc midpoints (see `edge_mid_equidistant`) -/
+theorem unsupplied_edge_centre_is_midpoint (h0 : 0 < tol) (h1 : tol < 1) {src : St ℝ}
+    (hS : SourceOK tol ct c T src) (ops : List Op) (xs : List (V3 ℝ))
+    (hx : Report.xyz Kind.edge (some xs) ∈ (run (R tol ct) repaired c (init (R tol ct) src) ops).2)
+    (hl : src.edgeLL = none) (hc : src.edgeXYZ = none) :
+    xs = c.edges.map (edgeCentroid (R tol ct) T.node) := by
+  obtain ⟨xs', e, _, hd⟩ := provenance_agree h0 h1 hS ops _ hx
+  cases e
+  rw [hd (by simp [supOf, hc])]
+  exact (hS.edgeFresh hl hc).1
+
+/-! ### the conversion laws (statements of `Lemmas/Coords.lean`, audited here) -/
+
+/-- derived Cartesian coordinates have unit length -/
+theorem xyz_unit (lon lat : Rad ℝ) : normSq (xyzOfLonLatRad (R tol ct) lon lat) = 1 :=
+  CoordsR.xyz_unit lon lat
+
+theorem normalize_unit (v : V3 ℝ) (hv : normSq v ≠ 0) : normSq (normalizeV (R tol ct) v) = 1 :=
+  CoordsR.normalize_unit v hv
+
+/-- normalising changes lengths only -/
+theorem normalize_dir (v : V3 ℝ) (hv : normSq v ≠ 0) :
+    ∃ k : ℝ, 0 < k ∧ normalizeV (R tol ct) v = V3.smul k v :=
+  CoordsR.normalize_dir v hv
+
+theorem normalize_idem (v : V3 ℝ) (hv : normSq v ≠ 0) :
+    normalizeV (R tol ct) (normalizeV (R tol ct) v) = normalizeV (R tol ct) v :=
+  CoordsR.normalize_idem v hv
+
+/-- xyz supplied, lon/lat derived: `(arg (x + iy), arcsin z)` maps back to exactly `(x, y, z)` -/
+theorem xyz_of_lonlat_of_xyz (v : V3 ℝ) (hu : normSq v = 1) (hxy : v.x ^ 2 + v.y ^ 2 ≠ 0) :
+    xyzOfLonLatRad (R tol ct) ⟨Complex.arg ⟨v.x, v.y⟩⟩ ⟨Real.arcsin v.z⟩ = v :=
+  CoordsR.xyz_of_lonlat_of_xyz v hu hxy
+
+/-- `_xyz_to_lonlat_deg(x, y, z)` (normalize=True) of ANY non-zero vector: longitude in [-180,180],
+    latitude in [-90,90], and the pair denotes the vector's direction (or the pole of the snapping
+    cap containing it) -/
+theorem lonlat_of_xyz_agree (h0 : 0 < tol) (h1 : tol < 1) (v : V3 ℝ) (hv : normSq v ≠ 0) :
+    InRange (lonLatDegOfXyz (R tol ct) true v) ∧
+    SameDir tol (dirDeg (R tol ct) (lonLatDegOfXyz (R tol ct) true v)) (normalizeV (R tol ct) v) := by
+  rw [lonLatDeg_norm v hv]
+  exact lonlat_of_unit h0 h1 _ (CoordsR.normalize_unit v hv)
+
+/-- lon/lat supplied, xyz derived: consistent by construction, and unit -/
+theorem lonlat_supplied_agree (p : Deg ℝ × Deg ℝ) :
+    nodeXyzOfLL (R tol ct) p = dirDeg (R tol ct) p ∧ normSq (nodeXyzOfLL (R tol ct) p) = 1 :=
+  ⟨rfl, CoordsR.xyz_unit _ _⟩
+
+theorem xyz_mod_two_pi (lon lat : ℝ) :
+    xyzOfLonLatRad (R tol ct) ⟨(R tol ct).fmod lon (2 * (R tol ct).pi)⟩ ⟨lat⟩
+      = xyzOfLonLatRad (R tol ct) ⟨lon⟩ ⟨lat⟩ :=
+  CoordsR.xyz_mod_two_pi lon lat
+
+theorem dirDeg_wrap180 (d : ℝ) (lat : Deg ℝ) :
+    dirDeg (R tol ct) (⟨wrap180 (R tol ct) d⟩, lat) = dirDeg (R tol ct) (⟨d⟩, lat) :=
+  CoordsR.dirDeg_wrap180 d lat
+
+theorem deg2rad_rad2deg (r : Rad ℝ) : deg2rad (R tol ct) (rad2deg (R tol ct) r) = r :=
+  CoordsR.deg2rad_rad2deg r
+
+theorem deg_range_real (d : ℝ) : -180 ≤ wrap180 (R tol ct) d ∧ wrap180 (R tol ct) d < 180 :=
+  deg_range (R tol ct) (fun _ _ => rfl) d
+
+/-! ### non-vacuity of the conversion laws -/
+
+example : normSq (xyzOfLonLatRad (R tol ct) ⟨2⟩ ⟨1⟩) = 1 := xyz_unit _ _
+example : normSq (normalizeV (R tol ct) ⟨3, 0, 4⟩) = 1 := normalize_unit _ (by norm_num [normSq, dot])
+example : xyzOfLonLatRad (R tol ct) ⟨Complex.arg ⟨0, -1⟩⟩ ⟨Real.arcsin 0⟩ = ⟨0, -1, 0⟩ :=
+  xyz_of_lonlat_of_xyz ⟨0, -1, 0⟩ (by norm_num [normSq, dot]) (by norm_num)
+example (h0 : 0 < tol) (h1 : tol < 1) :
+    InRange (lonLatDegOfXyz (R tol ct) true ⟨0, -7, 0⟩) :=
+  (lonlat_of_xyz_agree h0 h1 ⟨0, -7, 0⟩ (by norm_num [normSq, dot])).1
+example : dot (normalizeV (R tol ct) (meanV (R tol ct) [⟨1, 0, 0⟩, ⟨0, 1, 0⟩])) ⟨1, 0, 0⟩
+        = dot (normalizeV (R tol ct) (meanV (R tol ct) [⟨1, 0, 0⟩, ⟨0, 1, 0⟩])) ⟨0, 1, 0⟩ :=
+  (edge_mid_equidistant ⟨1, 0, 0⟩ ⟨0, 1, 0⟩ (by norm_num [normSq, dot]) (by norm_num [normSq, dot])
+    (by norm_num [meanV, sumV, V3.add, V3.zero, V3.divS, normSq, dot, R])).1
+example : SameDir (1 / 100000000) ⟨0, 0, 1⟩ ⟨0, 0, 1⟩ := Or.inl rfl
+example : sameDirB (R tol ct) 0 (1 / 2) ⟨0, 0, 1⟩ ⟨3 / 5, 0, 4 / 5⟩ = true :=
+  (sameDirB_iff _ _ _).mpr (Or.inr (Or.inl ⟨by norm_num, rfl⟩))
 
 end UxVerif.C04
